@@ -309,6 +309,10 @@ pub fn c05(args: &Args, reg: &[TypeEntry], log: &mut Log) {
         let _ = std::fs::remove_dir_all(&root);
         return;
     }
+    if args.get("only") == Some("orders") {
+        orders_only(args, reg, &groups, shard, shards, log);
+        return;
+    }
     if shard == 0 {
         for (file, group) in &groups {
             let mut parts = vec![];
@@ -436,6 +440,74 @@ pub fn c05(args: &Args, reg: &[TypeEntry], log: &mut Log) {
     let runs = if args.thorough() { 40_000 } else { 2_400 } / shards.max(1);
     concurrent(args, reg, &groups, &root, &out, runs, shard, log);
     verif::set_probe(None);
+    clear_dir(&root);
+    let _ = std::fs::remove_dir_all(&root);
+}
+
+/// Weaker oracle for configurations whose file text the reference composition does not model (the `format` feature):
+/// for every shared file and every order of its types (at most 720), real exports must not fail or panic, the final file
+/// must parse, declare every type of the group exactly once, and be byte-identical for all orders.
+fn orders_only(args: &Args, reg: &[TypeEntry], groups: &[(String, Vec<usize>)], shard: u64, shards: u64, log: &mut Log) {
+    let root = args.scratch.join(format!("c05o-{shard}"));
+    std::fs::create_dir_all(&root).unwrap();
+    let out = root.join("out");
+    std::env::set_var("TS_RS_EXPORT_DIR", &out);
+    let mut histories = 0u64;
+    let mut fails = 0u64;
+    for (gi, (file, group)) in groups.iter().enumerate() {
+        if gi as u64 % shards.max(1) != shard {
+            continue;
+        }
+        let class = class_of_group(reg, group);
+        let mut first: Option<(Vec<String>, String)> = None;
+        let mut reported = false;
+        for perm in permutations(group.len()).into_iter().take(720) {
+            histories += 1;
+            clear_dir(&root);
+            verif::reset_registry();
+            let order: Vec<String> = perm.iter().map(|&j| reg[group[j]].id.clone()).collect();
+            let mut problem: Option<(String, String)> = None;
+            for &j in &perm {
+                match guarded(|| (reg[group[j]].export)()) {
+                    Ok(Ok(())) => {}
+                    Ok(Err(e)) => problem = problem.or(Some(("export-returned-an-error".into(), e))),
+                    Err(p) => problem = problem.or(Some(("export-panicked".into(), p))),
+                }
+            }
+            let got = std::fs::read_to_string(out.join(file)).unwrap_or_else(|e| format!("<unreadable: {e}>"));
+            if problem.is_none() {
+                match tsmodel::parse::parse_module(&got) {
+                    Err(e) => problem = Some(("merged-file-does-not-parse".into(), e)),
+                    Ok(m) => {
+                        let mut names: Vec<String> = m.decls().map(|d| d.name.clone()).collect();
+                        names.sort();
+                        let mut want: Vec<String> = group.iter().map(|&i| (reg[i].ident)()).collect();
+                        want.sort();
+                        if names != want {
+                            problem = Some(("declared-names-differ".into(), format!("declared {names:?}, exported {want:?}")));
+                        }
+                    }
+                }
+            }
+            if problem.is_none() {
+                match &first {
+                    None => first = Some((order.clone(), got.clone())),
+                    Some((o0, g0)) if g0 != &got => problem = Some(("order-dependent".into(), format!("differs from the file after {o0:?}"))),
+                    _ => {}
+                }
+            }
+            if let Some((kind, what)) = problem {
+                fails += 1;
+                if !reported {
+                    reported = true;
+                    log.emit(json!({"ev": "fail", "monitor": "C05", "part": "orders", "kind": kind, "class": class, "origin": file,
+                        "order": order, "what": what.chars().take(400).collect::<String>(), "got": got.chars().take(1500).collect::<String>(),
+                        "registry_poisoned": verif::registry_is_poisoned()}));
+                }
+            }
+        }
+    }
+    log.emit(json!({"ev": "summary", "monitor": "C05", "part": "orders", "histories": histories, "fails": fails, "format": cfg!(feature = "format")}));
     clear_dir(&root);
     let _ = std::fs::remove_dir_all(&root);
 }
